@@ -308,3 +308,260 @@ pub fn cmd_sweep_c12(args: &[String]) {
     rep.sample(json!({"lengths": "0..=80 (16..=64 accepted)", "ids": ids.iter().map(|x| x.to_string()).collect::<Vec<_>>()}));
     rep.write(&args[0]);
 }
+
+// ------------------------------------------------------------------------------------------ C05 sweep
+fn le_bytes_of_decimal(dec: &str) -> [u8; 32] {
+    // small bignum: decimal string -> 32 LE bytes
+    let mut v = [0u8; 32];
+    for ch in dec.bytes() {
+        let mut carry = (ch - b'0') as u32;
+        for b in v.iter_mut() { let t = (*b as u32) * 10 + carry; *b = (t & 0xff) as u8; carry = t >> 8; }
+    }
+    v
+}
+/// the low-order points of Curve25519 and its twist in every encoding (canonical, non-canonical, top bit set),
+/// plus the interesting u-coordinates of the property
+pub fn special_points() -> Vec<(&'static str, [u8; 32])> {
+    let p_minus_1 = { let mut v = [0xffu8; 32]; v[0] = 0xec; v[31] = 0x7f; v };
+    let p = { let mut v = [0xffu8; 32]; v[0] = 0xed; v[31] = 0x7f; v };
+    let p_plus_1 = { let mut v = [0xffu8; 32]; v[0] = 0xee; v[31] = 0x7f; v };
+    let mut one = [0u8; 32]; one[0] = 1;
+    let l1 = le_bytes_of_decimal("325606250916557431795983626356110631294008115727848805560023387167927233504");
+    let l2 = le_bytes_of_decimal("39382357235489614581723060781553021112529911719440698176882885853963445705823");
+    let mut two = [0u8; 32]; two[0] = 2;
+    let mut nine = [0u8; 32]; nine[0] = 9;
+    let all_ones_255 = { let mut v = [0xffu8; 32]; v[31] = 0x7f; v };
+    let p_plus_9 = { let mut v = [0xffu8; 32]; v[0] = 0xf6; v[31] = 0x7f; v };
+    let base: Vec<(&'static str, [u8; 32], bool)> = vec![
+        ("u=0 (order 4)", [0u8; 32], true), ("u=1 (order 1)", one, true), ("order 8 (a)", l1, true), ("order 8 (b)", l2, true),
+        ("u=p-1 (order 2)", p_minus_1, true), ("u=p (non-canonical 0, order 4)", p, true), ("u=p+1 (non-canonical 1, order 1)", p_plus_1, true),
+        ("u=2 (twist)", two, false), ("u=9 (base)", nine, false), ("u=2^255-1 (non-canonical 18)", all_ones_255, false), ("u=p+9 (non-canonical base)", p_plus_9, false),
+    ];
+    let mut out = vec![];
+    for (n, b, _) in base.iter() {
+        out.push((*n, *b));
+        let mut h = *b; h[31] |= 0x80;
+        let nm: &'static str = Box::leak(format!("{} with bit 255 set", n).into_boxed_str());
+        out.push((nm, h));
+    }
+    out
+}
+pub fn is_low_order(name: &str) -> bool { name.contains("order") }
+
+/// `prims-sweep-c05 <kx_table.json> <out.json> <seed> <nrandom> <iterations>`
+pub fn cmd_sweep_c05(args: &[String]) {
+    let table: Value = serde_json::from_str(&std::fs::read_to_string(&args[0]).unwrap()).unwrap();
+    let seed: u64 = args[2].parse().unwrap();
+    let nrandom: u64 = args[3].parse().unwrap();
+    let iters: u64 = args[4].parse().unwrap();
+    let mut rng = Rng::new(seed ^ 0xc05);
+    let mut rep = Report::new();
+    let specials = special_points();
+    let scalars: Vec<(&str, [u8; 32])> = vec![("rfc", a32(&hex::decode("a546e36bf0527c9d3b16154b82465edd62144c0ac1fc5a18506a2244ba449ac4").unwrap())), ("zero", [0u8; 32]), ("all ff", [0xffu8; 32]), ("07..07", [7u8; 32]), ("random", rng.arr()), ("random2", rng.arr())];
+    // the special table, every scalar
+    for (pn, p) in specials.iter() {
+        for (sn, n) in scalars.iter() {
+            let (im, sod, _) = x25519(n, p);
+            compare(&mut rep, "x25519 special point", im, &[("libsodium", sod.as_ref())], json!({"point": pn, "scalar": sn}));
+        }
+    }
+    // uniformly random (scalar, encoding) pairs: ~94% are off the prime-order subgroup
+    for i in 0..nrandom {
+        let n: [u8; 32] = rng.arr();
+        let p: [u8; 32] = rng.arr();
+        let (im, sod, _) = x25519(&n, &p);
+        compare(&mut rep, "x25519 random point", im, &[("libsodium", sod.as_ref())], json!({"i": i, "scalar": hex(&n), "point": hex(&p), "seed": seed}));
+        if i % 16 == 0 {
+            let (im, sod) = x25519base(&n);
+            compare(&mut rep, "x25519 base", im, &[("libsodium", sod.as_ref())], json!({"scalar": hex(&n)}));
+        }
+    }
+    // RFC 7748 iteration: k, u := X25519(k, u), k
+    let mut k = { let mut v = [0u8; 32]; v[0] = 9; v };
+    let mut u = k;
+    for it in 0..iters {
+        let mut q = [0u8; 32];
+        cc::crypto_scalarmult(&mut q, &k, &u);
+        let mut r = [0u8; 32];
+        unsafe { so::crypto_scalarmult(r.as_mut_ptr(), k.as_ptr(), u.as_ptr()) };
+        rep.evaluations += 1;
+        if q != r { rep.fail("x25519 iterated vector: crypto_scalarmult differs from libsodium", json!({"iteration": it})); break; }
+        u = k; k = q;
+    }
+    if iters >= 1000 {
+        let want = hex::decode("684cf59ba83309552800ef566f2f4d3c1c3887c49360e3875f2eb94d99532c51").unwrap();
+        if k.to_vec() != want { rep.fail("x25519 iterated vector: value after 1000 iterations differs from RFC 7748", json!({"got": hex(&k)})); }
+    }
+    // DH commutes; beforenm = libsodium; object API routes
+    for i in 0..200u64 {
+        let a: [u8; 32] = rng.arr();
+        let b: [u8; 32] = rng.arr();
+        let (mut pa, mut pb) = ([0u8; 32], [0u8; 32]);
+        cc::crypto_scalarmult_base(&mut pa, &a); cc::crypto_scalarmult_base(&mut pb, &b);
+        let (mut s1, mut s2) = ([0u8; 32], [0u8; 32]);
+        cc::crypto_scalarmult(&mut s1, &a, &pb); cc::crypto_scalarmult(&mut s2, &b, &pa);
+        rep.evaluations += 1;
+        if s1 != s2 { rep.fail("x25519: Diffie-Hellman does not commute for honest pairs", json!({"i": i})); }
+        let k1 = cb::crypto_box_beforenm(&pb, &a);
+        let mut ks = [0u8; 32];
+        unsafe { so::crypto_box_beforenm(ks.as_mut_ptr(), pb.as_ptr(), a.as_ptr()) };
+        let pre = dryoc::precalc::PrecalcSecretKey::precalculate(&StackByteArray::from(&pb), &StackByteArray::from(&a));
+        let kp: dryoc::dryocbox::KeyPair = dryoc::keypair::KeyPair::from_secret_key(StackByteArray::from(&a));
+        let pre2 = kp.precalculate(&StackByteArray::from(&pb));
+        rep.evaluations += 3;
+        if k1 != ks { rep.fail("crypto_box_beforenm differs from libsodium", json!({"i": i})); }
+        if pre.as_slice() != ks || pre2.as_slice() != ks { rep.fail("PrecalcSecretKey / KeyPair::precalculate differs from libsodium", json!({"i": i})); }
+    }
+    // beforenm with adversarial peer keys: equal to libsodium wherever libsodium produces a key
+    for (pn, p) in specials.iter() {
+        let a: [u8; 32] = rng.arr();
+        let mut ks = [0u8; 32];
+        let rc = unsafe { so::crypto_box_beforenm(ks.as_mut_ptr(), p.as_ptr(), a.as_ptr()) };
+        rep.evaluations += 1;
+        if rc == 0 && cb::crypto_box_beforenm(p, &a) != ks { rep.fail("crypto_box_beforenm differs from libsodium on a special point", json!({"point": pn})); }
+    }
+    // key exchange: per role and peer class of Kx.tla
+    for row in table.as_array().unwrap() {
+        let role = row["role"].as_str().unwrap();
+        let cls = row["peer"].as_str().unwrap();
+        let model_ok = row["ok"].as_bool().unwrap();
+        let peers: Vec<(String, [u8; 32])> = match cls {
+            "honest" => (0..20).map(|_| { let s: [u8; 32] = rng.arr(); let mut p = [0u8; 32]; cc::crypto_scalarmult_base(&mut p, &s); ("honest".to_string(), p) }).collect(),
+            "low_order" => specials.iter().filter(|(n, _)| is_low_order(n)).map(|(n, p)| (n.to_string(), *p)).collect(),
+            "twist" => (0..20).map(|i| { let mut p: [u8; 32] = rng.arr(); if i == 0 { p = [0u8; 32]; p[0] = 2; } (format!("random encoding {}", i), p) }).collect(),
+            "non_canonical" => specials.iter().filter(|(n, _)| n.contains("non-canonical") && !is_low_order(n) && !n.contains("bit 255")).map(|(n, p)| (n.to_string(), *p)).collect(),
+            "high_bit_set" => (0..10).map(|_| { let s: [u8; 32] = rng.arr(); let mut p = [0u8; 32]; cc::crypto_scalarmult_base(&mut p, &s); p[31] |= 0x80; ("honest with bit 255 set".to_string(), p) }).collect(),
+            _ => vec![],
+        };
+        for (pn, peer) in peers {
+            let me_sk: [u8; 32] = rng.arr();
+            let mut me_pk = [0u8; 32];
+            cc::crypto_scalarmult_base(&mut me_pk, &me_sk);
+            let (mut srx, mut stx) = ([0u8; 32], [0u8; 32]);
+            let rc = unsafe {
+                if role == "client" { so::crypto_kx_client_session_keys(srx.as_mut_ptr(), stx.as_mut_ptr(), me_pk.as_ptr(), me_sk.as_ptr(), peer.as_ptr()) }
+                else { so::crypto_kx_server_session_keys(srx.as_mut_ptr(), stx.as_mut_ptr(), me_pk.as_ptr(), me_sk.as_ptr(), peer.as_ptr()) }
+            };
+            // a random 32-byte string may itself be low order only with negligible probability; libsodium's verdict is the class
+            let sod_ok = rc == 0;
+            if cls != "twist" && sod_ok != model_ok { rep.fail("Kx.tla's verdict differs from libsodium (specification error)", json!({"role": role, "peer": pn})); continue; }
+            let (mut rx, mut tx) = ([0u8; 32], [0u8; 32]);
+            let r = if role == "client" { ckx::crypto_kx_client_session_keys(&mut rx, &mut tx, &me_pk, &me_sk, &peer) } else { ckx::crypto_kx_server_session_keys(&mut rx, &mut tx, &me_pk, &me_sk, &peer) };
+            rep.evaluations += 1;
+            let d = json!({"role": role, "peer_class": cls, "peer": pn, "peer_key": hex(&peer)});
+            match (r.is_ok(), sod_ok) {
+                (true, true) => { if rx != srx || tx != stx { rep.fail("crypto_kx session keys differ from libsodium", d.clone()); } }
+                (false, false) => {}
+                (true, false) => rep.fail("crypto_kx accepts a peer key whose shared secret is all-zero", d.clone()),
+                (false, true) => rep.fail("crypto_kx rejects a peer key libsodium accepts", d.clone()),
+            }
+            // object API
+            let kp: dryoc::kx::KeyPair = dryoc::keypair::KeyPair { public_key: StackByteArray::from(&me_pk), secret_key: StackByteArray::from(&me_sk) };
+            let sess: Result<dryoc::kx::Session<StackByteArray<32>>, _> = if role == "client" { dryoc::kx::Session::new_client(&kp, &StackByteArray::from(&peer)) } else { dryoc::kx::Session::new_server(&kp, &StackByteArray::from(&peer)) };
+            let sess2: Result<dryoc::kx::Session<StackByteArray<32>>, _> = if role == "client" { kp.kx_new_client_session(&StackByteArray::from(&peer)) } else { kp.kx_new_server_session(&StackByteArray::from(&peer)) };
+            rep.evaluations += 2;
+            for (nm, s) in [("Session::new", sess), ("KeyPair::kx_new_session", sess2)] {
+                match (s, sod_ok) {
+                    (Ok(s), true) => { if s.rx_as_slice() != srx || s.tx_as_slice() != stx { rep.fail(&format!("{} keys differ from libsodium", nm), d.clone()); } }
+                    (Err(_), false) => {}
+                    (Ok(_), false) => rep.fail(&format!("{} accepts a peer key whose shared secret is all-zero", nm), d.clone()),
+                    (Err(_), true) => rep.fail(&format!("{} rejects a peer key libsodium accepts", nm), d.clone()),
+                }
+            }
+        }
+    }
+    // mirror: the client's rx/tx are the server's tx/rx
+    for i in 0..100u64 {
+        let (c_sk, s_sk): ([u8; 32], [u8; 32]) = (rng.arr(), rng.arr());
+        let (mut c_pk, mut s_pk) = ([0u8; 32], [0u8; 32]);
+        cc::crypto_scalarmult_base(&mut c_pk, &c_sk); cc::crypto_scalarmult_base(&mut s_pk, &s_sk);
+        let (mut crx, mut ctx, mut srx, mut stx) = ([0u8; 32], [0u8; 32], [0u8; 32], [0u8; 32]);
+        let r1 = ckx::crypto_kx_client_session_keys(&mut crx, &mut ctx, &c_pk, &c_sk, &s_pk);
+        let r2 = ckx::crypto_kx_server_session_keys(&mut srx, &mut stx, &s_pk, &s_sk, &c_pk);
+        rep.evaluations += 1;
+        if r1.is_err() || r2.is_err() || crx != stx || ctx != srx || crx == ctx { rep.fail("crypto_kx: client and server keys do not mirror", json!({"i": i})); }
+    }
+    rep.sample(json!({"special_points": specials.iter().map(|s| s.0).collect::<Vec<_>>(), "scalars": scalars.iter().map(|s| s.0).collect::<Vec<_>>(), "random_pairs": nrandom, "iterations": iters}));
+    rep.write(&args[1]);
+}
+
+// ------------------------------------------------------------------------------------------ C13 sweep
+/// `prims-sweep-c13 <out.json> <seed>`
+pub fn cmd_sweep_c13(args: &[String]) {
+    let seed: u64 = args[1].parse().unwrap();
+    let mut rng = Rng::new(seed ^ 0xc13);
+    let mut rep = Report::new();
+    // box key pairs from seeds of every length 0..=128: sk = SHA-512(seed)[..32], pk = base * sk; libsodium's own for 32
+    for len in 0..=128usize {
+        for round in 0..3 {
+            let s = if round == 0 { vec![0xffu8; len] } else { rng.bytes(len) };
+            let mut h = [0u8; 64];
+            unsafe { so::crypto_hash_sha512(h.as_mut_ptr(), s.as_ptr(), len as u64) };
+            let want_sk = a32(&h);
+            let mut want_pk = [0u8; 32];
+            unsafe { so::crypto_scalarmult_base(want_pk.as_mut_ptr(), want_sk.as_ptr()) };
+            if len == 32 {
+                let (mut p2, mut s2) = ([0u8; 32], [0u8; 32]);
+                unsafe { so::crypto_box_seed_keypair(p2.as_mut_ptr(), s2.as_mut_ptr(), s.as_ptr()) };
+                if p2 != want_pk || s2 != want_sk { rep.fail("construction differs from libsodium's crypto_box_seed_keypair (specification error)", json!(len)); }
+            }
+            let (pk, sk) = cb::crypto_box_seed_keypair(&s);
+            let (mut pk2, mut sk2) = ([0u8; 32], [0u8; 32]);
+            cb::crypto_box_seed_keypair_inplace(&mut pk2, &mut sk2, &s);
+            let kp: dryoc::dryocbox::KeyPair = dryoc::keypair::KeyPair::from_seed(&s);
+            rep.evaluations += 3;
+            let d = json!({"seed_len": len, "round": round});
+            if pk != want_pk || sk != want_sk { rep.fail("crypto_box_seed_keypair differs from libsodium's construction", d.clone()); }
+            if pk2 != want_pk || sk2 != want_sk { rep.fail("crypto_box_seed_keypair_inplace differs from libsodium's construction", d.clone()); }
+            if kp.public_key.as_slice() != want_pk || kp.secret_key.as_slice() != want_sk { rep.fail("KeyPair::from_seed differs from libsodium's construction", d.clone()); }
+        }
+    }
+    for i in 0..300u64 {
+        // public key recomputed from any secret key, including unclamped ones
+        let sk: [u8; 32] = match i { 0 => [0u8; 32], 1 => [0xffu8; 32], _ => rng.arr() };
+        let (im, sod) = x25519base(&sk);
+        compare(&mut rep, "public key from secret key", im, &[("libsodium", sod.as_ref())], json!({"i": i}));
+        // kx and signing key pairs from 32-byte seeds
+        let s: [u8; 32] = rng.arr();
+        let (mut p2, mut s2) = ([0u8; 32], [0u8; 32]);
+        unsafe { so::crypto_kx_seed_keypair(p2.as_mut_ptr(), s2.as_mut_ptr(), s.as_ptr()) };
+        rep.evaluations += 1;
+        match ckx::crypto_kx_seed_keypair(&s) { Ok((p, k)) => { if p != p2 || k != s2 { rep.fail("crypto_kx_seed_keypair differs from libsodium", json!({"i": i})); } } Err(e) => rep.fail("crypto_kx_seed_keypair failed", json!(format!("{:?}", e))) }
+        let (mut ep, mut esk) = ([0u8; 32], [0u8; 64]);
+        unsafe { so::crypto_sign_seed_keypair(ep.as_mut_ptr(), esk.as_mut_ptr(), s.as_ptr()) };
+        let (dp, dsk) = csg::crypto_sign_seed_keypair(&s);
+        let skp: dryoc::sign::SigningKeyPair<StackByteArray<32>, StackByteArray<64>> = dryoc::sign::SigningKeyPair::from_seed(&s);
+        let skp2: dryoc::sign::SigningKeyPair<StackByteArray<32>, StackByteArray<64>> = dryoc::sign::SigningKeyPair::from_secret_key(StackByteArray::from(&esk));
+        rep.evaluations += 3;
+        if dp != ep || dsk != esk { rep.fail("crypto_sign_seed_keypair differs from libsodium", json!({"i": i})); }
+        if skp.public_key.as_slice() != ep || skp.secret_key.as_slice() != esk { rep.fail("SigningKeyPair::from_seed differs from libsodium", json!({"i": i})); }
+        if skp2.public_key.as_slice() != ep || skp2.secret_key.as_slice() != esk { rep.fail("SigningKeyPair::from_secret_key differs from libsodium", json!({"i": i})); }
+        // Ed25519 -> X25519
+        let (mut xs, mut xp) = ([0u8; 32], [0u8; 32]);
+        unsafe { so::crypto_sign_ed25519_sk_to_curve25519(xs.as_mut_ptr(), esk.as_ptr()); so::crypto_sign_ed25519_pk_to_curve25519(xp.as_mut_ptr(), ep.as_ptr()); }
+        let (mut dxs, mut dxp) = ([0u8; 32], [0u8; 32]);
+        ced::crypto_sign_ed25519_sk_to_curve25519(&mut dxs, &esk);
+        let r = ced::crypto_sign_ed25519_pk_to_curve25519(&mut dxp, &ep);
+        rep.evaluations += 3;
+        if dxs != xs { rep.fail("crypto_sign_ed25519_sk_to_curve25519 differs from libsodium", json!({"i": i})); }
+        if r.is_err() || dxp != xp { rep.fail("crypto_sign_ed25519_pk_to_curve25519 differs from libsodium", json!({"i": i})); }
+        let mut base = [0u8; 32];
+        cc::crypto_scalarmult_base(&mut base, &dxs);
+        if base != dxp { rep.fail("converted Ed25519 pair is not consistent: base * xsk != xpk", json!({"i": i})); }
+    }
+    // key pair derived from a password: secret = Argon2(password), public = base * secret
+    for i in 0..6u64 {
+        let pw = rng.bytes(5 + i as usize);
+        let salt = rng.bytes(16);
+        let cfg = dryoc::pwhash::Config::interactive().with_opslimit(1 + i % 3).with_memlimit(8192 * (1 + i as usize));
+        let kp: Result<dryoc::dryocbox::KeyPair, _> = dryoc::pwhash::PwHash::<Vec<u8>, Vec<u8>>::derive_keypair(&pw, salt.clone(), cfg);
+        let mut want_sk = [0u8; 32];
+        let rc = unsafe { so::crypto_pwhash(want_sk.as_mut_ptr(), 32, pw.as_ptr() as *const _, pw.len() as u64, salt.as_ptr(), 1 + i % 3, 8192 * (1 + i as usize), 2) };
+        let mut want_pk = [0u8; 32];
+        unsafe { so::crypto_scalarmult_base(want_pk.as_mut_ptr(), want_sk.as_ptr()) };
+        rep.evaluations += 1;
+        match kp { Ok(kp) => { if rc != 0 || kp.secret_key.as_slice() != want_sk || kp.public_key.as_slice() != want_pk { rep.fail("PwHash::derive_keypair differs from libsodium's construction", json!({"i": i})); } } Err(e) => rep.fail("PwHash::derive_keypair failed", json!(format!("{:?}", e))) }
+    }
+    rep.sample(json!({"box_seed_lengths": "0..=128 x 3", "seeds_32": 300, "password_keypairs": 6}));
+    rep.write(&args[0]);
+}
